@@ -4,16 +4,50 @@ import os
 
 HERE = os.path.dirname(os.path.dirname(os.path.abspath(__file__)))
 
+KERNEL_NOTE = ("floats read as reals (A-REAL); TF/NumPy op models of the shim (A-OPS, differentially checked against real TF); "
+               "z3/cvc5/sympy trusted; bounded groups are labelled B in evidence and never counted as discharged")
+TECH_S = "deductive function contracts: shadow symbolic execution of the real functions + tower/ring normaliser + z3 (rlimit)"
+TECH_G = "ground-exhaustive evaluation of the real functions against exact spec functions over the property's finite quantifier"
+TECH_B = "bounded runtime contracts at the public interface (stand-in, not counted as proved)"
+
 CLAIMED = {
-    "C11": dict(
-        level="proof",
-        text="Function contracts on the real kinematics code (boost, rest_vector, boost_matrix, M2/Dot, Dalitz momenta, "
-             "angle<->momentum round trip) executed symbolically and discharged for all real inputs by the ring normaliser / z3; "
-             "the tiny-velocity tolerance clause and edge inputs are bounded and reported separately.",
-        note="floats read as reals (A-REAL); TF op models of the shim (A-OPS, differentially checked); z3/cvc5/sympy trusted",
-        technique="deductive function contracts: shadow symbolic execution of the real functions + ring normaliser / z3 (rlimit)",
-        design="3/C11",
-    ),
+    "C01": dict(level="other", design="3/C01",
+                text="Kernel contracts (boost, rest frame, invariants, Euler-angle extraction) proved for all inputs on the real code; the helicity-formalism "
+                     "composition theorem is assumed; the interface statement is a bounded runtime contract over a catalogue of decay structures x "
+                     "phase-space events x Lorentz transformations.",
+                note=KERNEL_NOTE + "; A-MATH: helicity-formalism invariance theorem", technique=TECH_S + "; " + TECH_B),
+    "C02": dict(level="other", design="3/C02",
+                text="Bounded runtime contract: permuted / re-optioned configurations give equal densities on a catalogue with spinning final particles; "
+                     "kernel contracts on SU(2) algebra are proved where built.",
+                note=KERNEL_NOTE + "; A-MATH: common-unitary invariance", technique=TECH_B + "; " + TECH_S),
+    "C03": dict(level="other", design="3/C03",
+                text="Bounded runtime contract: partial sums over all chain subsets, homogeneity in the coupling, fit-fraction sum rule and batch independence on real models.",
+                note=KERNEL_NOTE, technique=TECH_B),
+    "C04": dict(level="other", design="3/C04",
+                text="Bounded comparison of the density with an independent NumPy closed form (Legendre x Blatt-Weisskopf x Breit-Wigner) for J=0..4 and all chain subsets; "
+                     "kernel pieces (barrier tables, d-matrix weights) are ground-exhaustive/proved under C12/C15.",
+                note=KERNEL_NOTE, technique=TECH_B),
+    "C05": dict(level="other", design="3/C05",
+                text="Bounded runtime contract over the selectable evaluation strategies (cached, factorised, p4, tf.function/XLA, lazy, cached likelihoods) vs plain eager evaluation; "
+                     "custom einsum vs reference contraction proved per (expression, shape) for all tensor values where built.",
+                note=KERNEL_NOTE + "; TF graph/XLA compilation is exercised only by the bounded comparison", technique=TECH_B + "; " + TECH_S),
+    "C11": dict(level="proof", design="3/C11",
+                text="Function contracts on the real kinematics code (boost, rest_vector, boost_matrix, M2/Dot, unit/cross_unit, Euler-angle extraction, Dalitz momenta) "
+                     "executed symbolically and discharged for all real inputs satisfying the stated preconditions; the tiny-velocity tolerance clause is bounded and reported separately.",
+                note=KERNEL_NOTE, technique=TECH_S),
+    "C12": dict(level="proof", design="3/C12",
+                text="Wigner d-weights, Clebsch-Gordan coefficients (sympy and table paths) and delta-index gather arithmetic checked exhaustively over the property's finite label range "
+                     "against exact Fraction/integer spec functions; angle-dependent identities proved symbolically where built.",
+                note=KERNEL_NOTE + "; float tables compared to exact values to 4 ulp", technique=TECH_G + "; " + TECH_S),
+    "C13": dict(level="proof", design="3/C13",
+                text="(l,s) enumeration equals the triangle/parity spec set exhaustively for all spins up to 4; LS->helicity matrices equal exact CG products with a rigorous rank certificate up to 5/2.",
+                note=KERNEL_NOTE, technique=TECH_G),
+    "C14": dict(level="proof", design="3/C14",
+                text="Topology enumeration count, distinctness, tree shape, table<->chain inverse and topology_same iff groupings, exhaustively for the property's range (n<=6 quick, 7 thorough).",
+                note=KERNEL_NOTE, technique=TECH_G),
+    "C15": dict(level="proof", design="3/C15",
+                text="Barrier-factor coefficient tables and generator equal |theta_L(i sqrt z)|^2 exactly for L<=8; line-shape formula contracts proved symbolically where built; grids are bounded.",
+                note=KERNEL_NOTE, technique=TECH_G + "; " + TECH_S),
 }
 
 NOT_YET = "check not built yet in this round (see DESIGN.md section 5 for the construction order)"
